@@ -65,7 +65,7 @@ package collect
 //@   loop 1 invariant[unseen-kept] forall q string :: !seen(q) ==> in(sp.Data.memoizedFields, q) == in(old(sp.Data.memoizedFields), q) && sp.Data.memoizedFields[q] == old(sp.Data.memoizedFields)[q]
 //@   modifies sp.Data
 
-//@ contract collect.(*InMemCollector).ProcessSpanImmediately props C16
+//@ contract collect.(*InMemCollector).ProcessSpanImmediately props C16,C04
 //@   requires i != nil && sp != nil && sp.Event != nil && owns(sp.Event) && len(i.workers) > 0
 //@   requires[workers-built] forall k int :: 0 <= k && k < len(i.workers) ==> i.workers[k] != nil
 //@   domain[additional-attributes-are-user-fields] attrsAreUserFields(i.Config.GetAdditionalAttributes())
@@ -92,7 +92,7 @@ package collect
 // ---- C05 / C06 / C01: a span arriving after its trace was decided follows that decision.
 // Forwarded (exactly once) iff the trace was kept or dry run is on; never for a dropped trace.
 //@ spec attrsAreUserFields(m map[string]string) bool := forall k string :: in(m, k) ==> !isMetaKey(k) && k != config.DryRunFieldName && k != "meta.dryrun.sample_rate"
-//@ contract collect.(*InMemCollector).dealWithSentTrace props C05,C06,C01
+//@ contract collect.(*InMemCollector).dealWithSentTrace props C05,C06,C01,C04
 //@   requires i != nil && sp != nil && sp.Event != nil && owns(sp.Event) && tr != nil
 //@   domain[additional-attributes-are-user-fields] attrsAreUserFields(i.Config.GetAdditionalAttributes())
 //@   domain[rates-in-range] sp.SampleRate < 1<<31 && 1 <= tr.Rate() && tr.Rate() < 1<<32
@@ -122,7 +122,7 @@ package collect
 //@ assume types.(*Trace).CacheImpact getter
 //@ assume types.(*Trace).SpanEventCount getter
 //@ assume types.(*Trace).SpanLinkCount getter
-//@ fragment collect.(*InMemCollector).sendTraces loop 2 body props C02,C05,C06
+//@ fragment collect.(*InMemCollector).sendTraces loop 2 body props C02,C05,C06,C04
 //@   requires i != nil && sp != nil && sp.Event != nil && owns(sp.Event) && t.Trace != nil
 // what makeDecision built: the queued record repeats the trace's own decision and rate
 //@   requires[as-decided] t.rate == t.Trace.sampleRate && t.shouldSend == t.Trace.KeepSample
@@ -165,7 +165,7 @@ package collect
 //@   modifies p.memoizedFields, p.missingFields
 //@ contract types.(*Trace).ID inline
 //@ contract types.(*Trace).GetSpans inline
-//@ contract collect.(*CollectorWorker).makeDecision props C01,C02,C03,C07
+//@ contract collect.(*CollectorWorker).makeDecision props C01,C02,C03,C07,C14
 //@   requires cl != nil && cl.parent != nil && trace != nil
 //@   requires[spans-present] forall k int :: 0 <= k && k < len(trace.spans) ==> trace.spans[k] != nil && trace.spans[k].Event != nil
 //@   let sc = cl.sampleCache
@@ -173,8 +173,12 @@ package collect
 //@   ensures[decided-and-recorded-once] !old(trace.Sent) ==> err == nil && recN(sc) == old(recN(sc)) + 1 && recID(sc) == trace.TraceID && recKept(sc) == trace.KeepSample && recRate(sc) == toInt(trace.sampleRate)
 //@   ensures[record-repeats-the-decision] err == nil ==> toInt(s.Trace) == toInt(trace) && s.shouldSend == trace.KeepSample && s.rate == trace.sampleRate && s.sendReason == sendReason
 //@   ensures[not-marked-sent-yet] trace.Sent == old(trace.Sent)
+// C14: the sampler asked is the one kept for the trace's selector (created for that selector on first use)
+//@   let sel = cl.parent.Config.DetermineSamplerKey(trace.APIKey, trace.Environment, trace.Dataset)
+//@   ensures[sampler-of-the-destination-decides] err == nil ==> in(cl.datasetSamplers, sel) && (forall q int :: q == toInt(refOf(cl.datasetSamplers[sel])) ==> askedN(q) == old(askedN(q)) + 1) && (in(old(cl.datasetSamplers), sel) ==> toInt(cl.datasetSamplers[sel]) == toInt(old(cl.datasetSamplers)[sel]))
+//@   ensures[other-selectors-keep-their-samplers] forall k string :: k != sel ==> in(cl.datasetSamplers, k) == in(old(cl.datasetSamplers), k) && toInt(cl.datasetSamplers[k]) == toInt(old(cl.datasetSamplers)[k])
 //@   loop 1 invariant cl != nil && trace != nil && trace.Sent == old(trace.Sent) && recN(sc) == old(recN(sc)) && trace.spans == old(trace.spans)
-//@   modifies trace.sampleRate, trace.KeepSample, cl.datasetSamplers, all(recN), all(recKept), all(recID), all(recRate), field(types.Event, Data.memoizedFields), field(types.Event, Data.missingFields)
+//@   modifies trace.sampleRate, trace.KeepSample, cl.datasetSamplers, all(recN), all(recKept), all(recID), all(recRate), field(types.Event, Data.memoizedFields), field(types.Event, Data.missingFields), all(askedN)
 
 // AddSpan appends the span to the trace (verified here; it is in package types).
 //@ contract types.(*Trace).AddSpan props C01,C03
